@@ -475,3 +475,80 @@ func ExactCmp(fn *ssa.Function, a, b VM, rel Rel) bool {
 	}
 	return false
 }
+
+// RelVal matches a boolean VALUE that states "a rel b": the comparison written either way round (a op b / b op' a) and any
+// number of negations around the complementary comparison. Rules that look at a returned or stored comparison use it so that
+// `x >= y`, `y <= x` and `!(x < y)` are the same thing to them.
+func RelVal(a, b VM, want Rel) VM {
+	return func(v ssa.Value) bool {
+		neg := false
+		for {
+			u, ok := v.(*ssa.UnOp)
+			if !ok || u.Op != token.NOT {
+				break
+			}
+			neg = !neg
+			v = u.X
+		}
+		bo, ok := v.(*ssa.BinOp)
+		if !ok {
+			return false
+		}
+		r, ok := relOfOp(bo.Op)
+		if !ok {
+			return false
+		}
+		if neg {
+			r = r.neg()
+		}
+		if a(bo.X) && b(bo.Y) && r == want {
+			return true
+		}
+		if a(bo.Y) && b(bo.X) && r.swap() == want {
+			return true
+		}
+		return false
+	}
+}
+
+// EdgeFact is what holds on one outgoing edge of an If: either "X rel Y" (Cmp) or "X is Pol" for a plain boolean.
+type EdgeFact struct {
+	X, Y ssa.Value
+	Rel  Rel
+	Cmp  bool
+	Pol  bool
+}
+
+// FactOn returns the fact established by taking edge e (negations peeled, polarity folded into the relation).
+func FactOn(e Edge) (EdgeFact, bool) {
+	iff, ok := lastIf(e.From)
+	if !ok {
+		return EdgeFact{}, false
+	}
+	c, neg := CondPolarity(iff.Cond)
+	holds := (e.Succ == 0) != neg
+	if bo, ok := c.(*ssa.BinOp); ok {
+		if r, ok := relOfOp(bo.Op); ok {
+			if !holds {
+				r = r.neg()
+			}
+			return EdgeFact{X: bo.X, Y: bo.Y, Rel: r, Cmp: true}, true
+		}
+	}
+	return EdgeFact{X: c, Pol: holds}, true
+}
+
+// SameFact reports whether two edge facts state the same thing over the same operands (either operand order),
+// with operands compared by eq.
+func SameFact(a, b EdgeFact, eq func(x, y ssa.Value) bool) bool {
+	if a.Cmp != b.Cmp {
+		return false
+	}
+	if !a.Cmp {
+		return a.Pol == b.Pol && eq(a.X, b.X)
+	}
+	if a.Rel == b.Rel && eq(a.X, b.X) && eq(a.Y, b.Y) {
+		return true
+	}
+	return a.Rel == b.Rel.swap() && eq(a.X, b.Y) && eq(a.Y, b.X)
+}
